@@ -306,6 +306,10 @@ class Elab:
             return "%s(%s)" % (node.variant, ", ".join(self.show(v) for k, v in sorted(node.fields.items())))
         if isinstance(node, list):
             return "[%s]" % ", ".join(self.show(a) for a in node)
+        if isinstance(node, I.Enum) and node.adt in ("MatrixSwizzleSlot", "ComponentIndex", "SwizzleSlot"):
+            inner = [self.show(v) for _, v in sorted(node.fields.items())]
+            return (node.variant or "") + ("".join(inner) if node.adt == "MatrixSwizzleSlot" else "") if node.adt != "MatrixSwizzleSlot" else "_m" + "".join(
+                {"First": "0", "Second": "1", "Third": "2", "Forth": "3", "Fourth": "3"}.get(x, x) for x in inner)
         return repr(node)[:40]
 
     def describe(self, e):
